@@ -206,8 +206,8 @@ func (t *xTrial) adversarial(r *Rng, ty *xTy) interface{} {
 			return &xNode{ID: t.nextID, Type: "O0", t: t}
 		}
 		// a list with one adversarial element
-		l := []interface{}{t.good(r, ty.Of, 1), t.adversarial(r, ty.Of), t.good(r, ty.Of, 1)}
-		return l[:1+r.Intn(3)]
+		l := []interface{}{t.good(r, ty.Of, 1), t.adversarial(r, ty.Of), t.good(r, ty.Of, 1), t.adversarial(r, ty.Of)}
+		return l[:1+r.Intn(4)]
 	}
 	nullish := []interface{}{nil, xNilStr, math.NaN()}
 	switch ty.Name {
@@ -232,7 +232,8 @@ func (t *xTrial) adversarial(r *Rng, ty *xTy) interface{} {
 		return append(nullish, 5, "src", []interface{}{1}, xChan)[r.Intn(7)]
 	case "interface", "union":
 		t.nextID++
-		return append(nullish, 5, "src", &xNode{ID: t.nextID, Type: "Q", t: t}, &xNode{ID: t.nextID, Type: "Nope", t: t})[r.Intn(7)]
+		// a runtime type that is not a possible type weighs as much as the rest together
+		return append(nullish, 5, "src", &xNode{ID: t.nextID, Type: "Nope", t: t}, &xNode{ID: t.nextID, Type: "Q", t: t}, &xNode{ID: t.nextID, Type: "Q", t: t}, &xNode{ID: t.nextID, Type: "M", t: t}, &xNode{ID: t.nextID, Type: "Q", t: t})[r.Intn(10)]
 	}
 	return nil
 }
@@ -518,6 +519,7 @@ type xRequest struct {
 	pol    xPolicy
 	seed   uint64
 	entry  string // do | execute | plan
+	moreInputs []map[string]interface{} // further variable maps for executions of the same prepared plan
 	kind   int    // projection judged by the runner
 }
 
@@ -531,7 +533,23 @@ type xObserved struct {
 	mutation bool
 }
 
-func xRun(rq *xRequest) *xObserved {
+// reset prepares the trial for another execution (of the same prepared plan): fresh logs, other
+// resolver outcomes (they depend on the seed), another root value
+func (t *xTrial) reset(seed uint64) {
+	t.mu.Lock()
+	defer t.mu.Unlock()
+	t.seed = seed
+	t.nextID = 0
+	t.calls, t.oracle, t.tcalls, t.tover, t.log, t.fails = nil, nil, nil, nil, nil, nil
+	t.callPaths = map[string]int{}
+	t.varsSeen = ""
+	t.root = map[string]interface{}{"__root": int(seed % 77)}
+}
+
+// xRun runs the request on the implementation.  For the entry point "plan" the plan is prepared once
+// and executed once per element of rq.inputs followed by rq.moreInputs (plan reuse with other
+// variables, roots and resolver outcomes); one observation per execution is returned.
+func xRun(rq *xRequest) []*xObserved {
 	t := &xTrial{s: rq.s, seed: rq.seed, pol: rq.pol, callPaths: map[string]int{}, tags: map[string]bool{}, ctxTag: int(rq.seed%1000) + 1,
 		root: map[string]interface{}{"__root": int(rq.seed % 77)}, nnThunks: NewRng(rq.seed, 4242).Chance(10), viaFR: NewRng(rq.seed, 777).Chance(25)}
 	if t.viaFR {
@@ -542,75 +560,108 @@ func xRun(rq *xRequest) *xObserved {
 	}
 	b, err := rq.s.build(&xHooks{Resolve: t.resolve, ResolveType: t.resolveType, IsTypeOf: t.isTypeOf, OmitResolve: t.viaFR})
 	if err != nil {
-		return &xObserved{fails: []string{"generated schema rejected: " + err.Error()}, invalid: true}
+		return []*xObserved{{fails: []string{"generated schema rejected: " + err.Error()}, invalid: true}}
 	}
 	t.b = b
-	obs := &xObserved{desc: map[string]interface{}{"query": rq.text, "operationName": rq.op, "variables": rq.inputs, "entry": rq.entry}}
+	first := &xObserved{desc: map[string]interface{}{"query": rq.text, "operationName": rq.op, "variables": rq.inputs, "entry": rq.entry}}
 	docAST, perr := parser.Parse(parser.ParseParams{Source: source.NewSource(&source.Source{Body: []byte(rq.text), Name: "q"})})
 	if perr != nil {
-		obs.invalid = true
-		obs.desc["generator_error"] = "parse: " + perr.Error()
-		return obs
+		first.invalid = true
+		first.desc["generator_error"] = "parse: " + perr.Error()
+		return []*xObserved{first}
 	}
 	if vr := graphql.ValidateDocument(&b.Schema, docAST, nil); !vr.IsValid {
-		obs.invalid = true
-		obs.desc["generator_error"] = fmt.Sprint("validate: ", vr.Errors)
-		return obs
+		first.invalid = true
+		first.desc["generator_error"] = fmt.Sprint("validate: ", vr.Errors)
+		return []*xObserved{first}
 	}
 	ctx := context.WithValue(context.Background(), xCtxKey{}, t.ctxTag)
-	var res *graphql.Result
-	planCoq := "None"
-	pm := guard(func() {
-		switch rq.entry {
-		case "do":
-			res = graphql.Do(graphql.Params{Schema: b.Schema, RequestString: rq.text, OperationName: rq.op, VariableValues: rq.inputs, RootObject: t.root, Context: ctx})
-		case "execute":
-			res = graphql.Execute(graphql.ExecuteParams{Schema: b.Schema, AST: docAST, OperationName: rq.op, Args: rq.inputs, Root: t.root, Context: ctx})
-		case "plan":
-			plan, err := graphql.PlanQuery(&b.Schema, docAST, rq.op)
-			if err != nil {
-				res = &graphql.Result{Errors: gqlerrors.FormatErrors(err)}
-				return
-			}
-			planCoq = "(Some " + xPlanCoq(graphql.VerifDumpPlan(plan, 12)) + ")"
-			res = graphql.ExecutePlan(plan, graphql.ExecuteParams{Schema: b.Schema, Args: rq.inputs, Root: t.root, Context: ctx})
-		}
-	})
-	if pm != "" {
-		obs.fails = append(obs.fails, rq.entry+": "+pm)
-		return obs
-	}
-	if res == nil {
-		obs.fails = append(obs.fails, rq.entry+" returned nil")
-		return obs
-	}
-	errsCoq, lfails := xErrsCoq(res.Errors)
-	obs.fails = append(obs.fails, t.fails...)
-	obs.fails = append(obs.fails, lfails...)
-	data := "None"
-	if res.Data != nil {
-		data = "(Some " + xRespCoq(res.Data) + ")"
-	}
-	rejected := res.Data == nil && len(t.calls) == 0 && len(res.Errors) > 0
 	opn := "None"
 	if rq.op != "" {
 		opn = "(Some " + coqStr(rq.op) + ")"
 	}
-	seen := "None"
-	if len(t.calls) > 0 {
-		seen = "(Some " + t.varsSeen + ")"
+	// observe builds the observation of one execution from the trial's logs
+	observe := func(obs *xObserved, res *graphql.Result, inputsMap map[string]interface{}, planCoq string) *xObserved {
+		if res == nil {
+			obs.fails = append(obs.fails, rq.entry+" returned nil")
+			return obs
+		}
+		errsCoq, lfails := xErrsCoq(res.Errors)
+		obs.fails = append(obs.fails, t.fails...)
+		obs.fails = append(obs.fails, lfails...)
+		data := "None"
+		if res.Data != nil {
+			data = "(Some " + xRespCoq(res.Data) + ")"
+		}
+		rejected := res.Data == nil && len(t.calls) == 0 && len(res.Errors) > 0
+		seen := "None"
+		if len(t.calls) > 0 {
+			seen = "(Some " + t.varsSeen + ")"
+		}
+		inputs := strings.TrimSuffix(strings.TrimPrefix(jvCoq(inputsMap), "(JObj "), ")")
+		obs.coq = fmt.Sprintf("{| x_kind := %d; x_schema := %s; x_doc := %s; x_op := %s; x_inputs := %s; x_root := (RObj 0 \"root\"); x_oracle := %s; x_toracle := %s; x_rejected := %s; x_data := %s; x_errs := %s; x_calls := %s; x_tcalls := %s; x_varsseen := %s; x_log := %s; x_plan := %s |}",
+			rq.kind, rq.s.coq(), rq.doc.coq(), opn, inputs, coqList(t.oracle), coqList(t.tover), coqBool(rejected), data, errsCoq, coqList(t.calls), coqList(t.tcalls), seen, coqList(t.log), planCoq)
+		obs.nCalls = len(t.calls)
+		obs.desc["response"] = res
+		obs.desc["resolver_outcomes"] = len(t.oracle)
+		for k := range t.tags {
+			obs.tags = append(obs.tags, k)
+		}
+		sort.Strings(obs.tags)
+		return obs
 	}
-	inputs := strings.TrimSuffix(strings.TrimPrefix(jvCoq(rq.inputs), "(JObj "), ")")
-	obs.coq = fmt.Sprintf("{| x_kind := %d; x_schema := %s; x_doc := %s; x_op := %s; x_inputs := %s; x_root := (RObj 0 \"root\"); x_oracle := %s; x_toracle := %s; x_rejected := %s; x_data := %s; x_errs := %s; x_calls := %s; x_tcalls := %s; x_varsseen := %s; x_log := %s; x_plan := %s |}",
-		rq.kind, rq.s.coq(), rq.doc.coq(), opn, inputs, coqList(t.oracle), coqList(t.tover), coqBool(rejected), data, errsCoq, coqList(t.calls), coqList(t.tcalls), seen, coqList(t.log), planCoq)
-	obs.nCalls = len(t.calls)
-	obs.desc["response"] = res
-	obs.desc["resolver_outcomes"] = len(t.oracle)
-	for k := range t.tags {
-		obs.tags = append(obs.tags, k)
+	var res *graphql.Result
+	if rq.entry != "plan" {
+		pm := guard(func() {
+			switch rq.entry {
+			case "do":
+				res = graphql.Do(graphql.Params{Schema: b.Schema, RequestString: rq.text, OperationName: rq.op, VariableValues: rq.inputs, RootObject: t.root, Context: ctx})
+			case "execute":
+				res = graphql.Execute(graphql.ExecuteParams{Schema: b.Schema, AST: docAST, OperationName: rq.op, Args: rq.inputs, Root: t.root, Context: ctx})
+			}
+		})
+		if pm != "" {
+			first.fails = append(first.fails, rq.entry+": "+pm)
+			return []*xObserved{first}
+		}
+		return []*xObserved{observe(first, res, rq.inputs, "None")}
 	}
-	sort.Strings(obs.tags)
-	return obs
+	// prepared plan, executed several times
+	var plan *graphql.Plan
+	var perr2 error
+	if pm := guard(func() { plan, perr2 = graphql.PlanQuery(&b.Schema, docAST, rq.op) }); pm != "" {
+		first.fails = append(first.fails, "PlanQuery: "+pm)
+		return []*xObserved{first}
+	}
+	if perr2 != nil {
+		return []*xObserved{observe(first, &graphql.Result{Errors: gqlerrors.FormatErrors(perr2)}, rq.inputs, "None")}
+	}
+	planCoq := "(Some " + xPlanCoq(graphql.VerifDumpPlan(plan, 12)) + ")"
+	var out []*xObserved
+	all := append([]map[string]interface{}{rq.inputs}, rq.moreInputs...)
+	for i, in := range all {
+		obs := first
+		if i > 0 {
+			t.reset(rq.seed + uint64(i)*7907)
+			obs = &xObserved{desc: map[string]interface{}{"query": rq.text, "operationName": rq.op, "variables": in, "entry": fmt.Sprintf("plan (execution %d of the same prepared plan)", i+1)}}
+			planCoq = "None"
+		}
+		in := in
+		var r *graphql.Result
+		if pm := guard(func() {
+			r = graphql.ExecutePlan(plan, graphql.ExecuteParams{Schema: b.Schema, Args: in, Root: t.root, Context: ctx})
+		}); pm != "" {
+			obs.fails = append(obs.fails, "ExecutePlan: "+pm)
+			out = append(out, obs)
+			continue
+		}
+		o := observe(obs, r, in, planCoq)
+		if i > 0 {
+			o.tags = append(o.tags, "plan-reused")
+		}
+		out = append(out, o)
+	}
+	return out
 }
 
 var _ = ast.NewDocument
